@@ -749,6 +749,9 @@ func (g *Gen) GenNode(depth int, root bool) *Node {
 		if g.Cfg.ManyFields && g.p(0.05, "many") {
 			nf = g.intn(9, 12, "nfm")
 		}
+		if !root && g.p(0.04, "nofields") {
+			nf = 0 // a struct schema without fields (what Pick / Omit may leave; a marker object)
+		}
 		used := map[string]bool{}
 		emptyKeyUsed := false
 		for len(n.Fields) < nf {
@@ -810,8 +813,8 @@ func (g *Gen) GenNode(depth int, root bool) *Node {
 			}
 			n.Fields = append(n.Fields, f)
 		}
-		if g.p(0.3, "extra") {
-			n.Extra = []string{"Xtra0"}
+		if g.p(0.3, "extra") || nf == 0 {
+			n.Extra = []string{"Xtra0"} // (a destination without any field would be a zero-size value: all its instances share one address)
 		}
 		if g.p(g.Cfg.PVia, "via") {
 			n.Via = pick(g, []string{"merge", "extend", "omit", "pick", "merge"}, "viak")
